@@ -65,6 +65,11 @@ var c06FilterPos = []struct{ name, src string }{
 	{"index-expr", "{{ xs[y2|forbid] }}"},
 	{"do-tag", "{% do x|forbid %}"},
 	{"spaceless-body", "{% spaceless %}<b> {{ x|forbid }} </b>{% endspaceless %}"},
+	// under a lenient construct: the refusal must not be taken for an absent value
+	{"default-subject", "{{ (x|forbid)|default('d') }}"},
+	{"default-subject-in-list", "{{ [x|forbid]|default('d')|join }}"},
+	{"default-subject-concat", "{{ ('a' ~ x|forbid)|default('d') }}"},
+	{"is-defined-subject", "{{ (x|forbid) is defined ? 'y' : 'n' }}"},
 }
 
 var c06FuncPos = []struct{ name, src string }{
@@ -93,6 +98,12 @@ var c06FuncPos = []struct{ name, src string }{
 	{"method-style-cond", "{% if mp.forbid_fn(x) %}a{% endif %}"},
 	{"method-style-on-string", "{{ x.forbid_fn(y2) }}"},
 	{"method-style-arg", "{{ max(1, mp.forbid_fn(y2)) }}"},
+	// under a lenient construct: the refusal must not be taken for an absent value
+	{"default-subject", "{{ forbid_fn(x)|default('d') }}"},
+	{"default-subject-indexed", "{{ forbid_fn(xs)[0]|default('d') }}"},
+	{"default-subject-index", "{{ xs[forbid_fn(y2)]|default('d') }}"},
+	{"is-defined-subject", "{{ forbid_fn(x) is defined ? 'y' : 'n' }}"},
+	{"method-style-default", "{{ mp.forbid_fn(x)|default('d') }}"},
 }
 
 var c06CarrierNames = []string{"include", "include-only", "include-with", "extends+override", "extends(parent-body)", "parent()", "import-as+call", "from-import+call",
@@ -637,7 +648,7 @@ func TestC06Flip(t *testing.T) {
 	})
 }
 
-const c06Rule = "a forbidden spy filter or function written in one of 26 (filter) / 21 (function) syntactic positions, reached from `include 'inner' sandboxed` (optionally with/only, placed at top level, in a loop, condition, block or macro of the unsandboxed template) through a chain of 0-3 carriers out of 16 (top-level code of an imported library (import as / from import), include, include only, include with, extends with override, extends with the occurrence in the parent, parent(), import-as + call, from-import + call, local macro, apply, for, if, block, set) under DefaultSecurityPolicy or a harness policy type, the refused name absent from the policy's maps or (1 case in 3) listed there with the value false; non-trivial = the occurrence is live (the spy runs when the include is not sandboxed) and it is not the head of a print tag directly in the sandboxed template; distinct by case parameters"
+const c06Rule = "a forbidden spy filter or function written in one of 30 (filter) / 30 (function) syntactic positions (also as the subject of default and `is defined`), reached from `include 'inner' sandboxed` (optionally with/only, placed at top level, in a loop, condition, block or macro of the unsandboxed template) through a chain of 0-3 carriers out of 16 (top-level code of an imported library (import as / from import), include, include only, include with, extends with override, extends with the occurrence in the parent, parent(), import-as + call, from-import + call, local macro, apply, for, if, block, set) under DefaultSecurityPolicy or a harness policy type, the refused name absent from the policy's maps or (1 case in 3) listed there with the value false; non-trivial = the occurrence is live (the spy runs when the include is not sandboxed) and it is not the head of a print tag directly in the sandboxed template; distinct by case parameters"
 
 func TestC06Sandbox(t *testing.T) {
 	r := NewRec(t, "C06", c06Rule)
